@@ -186,6 +186,10 @@ def call_spec_fn(self, name, e, st):
         new = fresh("remap", m.z.sort())
         st.assume(z3.ForAll([y], z3.Select(new, y) == z3.If(z3.Select(m.z, y) == a.z, b.z, z3.Select(m.z, y))))
         return Val(m.t, new)
+    if name == "madd":      # madd(m, k): the ghost set/map m with key k set to True
+        m, k = (self.ev1(x, st)[0] for x in e.args)
+        k = self.coerce(self.guess_tuple(k, st), m.t.k, st)
+        return Val(m.t, z3.Store(m.z, k.z, z3.BoolVal(True)))
     if name == "keys_are":     # keys_are(d, "a", "b", ...): the key set of d is exactly the listed strings
         d = self.ev1(e.args[0], st)[0]
         ks = [z3.StringVal(x.value) for x in e.args[1:]]
@@ -220,7 +224,7 @@ def _mentions(z, idset):
     return False
 
 
-SPEC_NAMES = {"remap", "keys_are", "wf", "last_result", "last_arg", "called_after", "old", "at", "result", "forall", "exists", "implies", "iff", "ite", "is_none", "val", "fresh", "same",
+SPEC_NAMES = {"madd", "remap", "keys_are", "wf", "last_result", "last_arg", "called_after", "old", "at", "result", "forall", "exists", "implies", "iff", "ite", "is_none", "val", "fresh", "same",
               "ssum"}
 
 
@@ -1159,7 +1163,10 @@ def call_method(self, recv, name, args, kwargs, st, node):
                 yield none_val(), st
                 return
             if name == "extend":
-                self.list_extend(st, recv, self.view_of(self.iter_value(a[0], st), st))
+                src_ = self.iter_value(a[0], st)
+                if isinstance(src_, tuple) and src_ and src_[0] == "filtered":
+                    src_ = self.filtered_seq(src_, st)          # generator with a filter: the kept items, in order
+                self.list_extend(st, recv, self.view_of(src_, st))
                 yield none_val(), st
                 return
             if name == "clear":
@@ -1466,6 +1473,14 @@ def iter_to_val(self, v, t, st):
         return self.filtered_seq(v, st)
     if isinstance(v, View) and isinstance(t, Seq):
         return self.materialise(v, st, t.elt)
+    if isinstance(v, MemView) and isinstance(t, Seq):
+        # a membership-only iterable handed to a sequence parameter: some enumeration of exactly its members
+        s_ = fresh("mvseq", z3.SeqSort(t.elt.sort()))
+        i_ = fresh("i", z3.IntSort())
+        x_ = fresh("x", t.elt.sort())
+        st.assume(z3.ForAll([i_], z3.Implies(z3.And(0 <= i_, i_ < z3.Length(s_)), v.pred(s_[i_]))))
+        st.assume(z3.ForAll([x_], z3.Implies(v.pred(x_), z3.Exists([i_], z3.And(0 <= i_, i_ < z3.Length(s_), s_[i_] == x_)))))
+        return Val(t, s_)
     return v
 
 
@@ -1510,9 +1525,14 @@ def call_contract(self, c, args, kwargs, st, node):
     if c.self_invariant and "self" in env and isinstance(env["self"], Val) and isinstance(env["self"].t, Obj) \
             and not c.qual.endswith(".__init__"):
         reqs += self.reg.class_invariants(env["self"].t.cls)
+    assumed = c.qual in getattr(self.c, "assume_call_pre", ())
     for k, r in enumerate(reqs):
         z = self.spec_truth(r, cs)
-        self.oblige(f"{site}.pre{k}", st, z, f"precondition of {c.qual}: {r}")
+        if assumed:
+            # the caller's contract does not establish this precondition: an explicit, reported assumption
+            self.assume_log(f"ASSUMED at the call of {c.qual} in {self.c.qual}: {r}")
+        else:
+            self.oblige(f"{site}.pre{k}", st, z, f"precondition of {c.qual}: {r}")
         st.assume(z)
     extra_reqs = self.c.call_requires.get(c.qual, []) if not self.spec else []
     if extra_reqs:
